@@ -135,6 +135,7 @@ mod verif_kani {
 
     /// the string is concrete; the slice bounds a, b and the presence of an end are symbolic
     fn check_string(s: &str) {
+        crate::trace!(text = s);
         let f = FencedString::from_str(s);
         let (offs, wide, n) = layout(s);
         assert!(invariant(&f), "from_string establishes the invariant");
@@ -145,6 +146,8 @@ mod verif_kani {
         let has_end: bool = kani::any();
         kani::assume(a <= n && b >= a && b <= n + 2);
         let end = if has_end { Some(b) } else { None };
+        crate::trace!(start = a);
+        crate::trace!(end = end);
         let last = if has_end && b < n { b } else { n }; // one past the last code point of the slice
         let (ba, bb) = (offs[a], offs[last]);
         // substr is a view into the buffer: its position and length determine it
@@ -302,6 +305,8 @@ mod verif_kani {
                     let mut jj = 0;
                     while jj < SECOND.len() {
                         if jj == j {
+                            crate::trace!(left = SHAPES[idx]);
+                            crate::trace!(right = SECOND[jj]);
                             let y = FencedString::from_str(SECOND[jj]);
                             let z = &x + &y;
                             assert!(invariant(&z), "concatenation keeps the invariant");
